@@ -55,7 +55,10 @@ def run_case(case) -> List[Tuple[str, str]]:
     from clematis.engine.util.io_logging import enable_staging as real_enable_staging
     os.environ["CI"] = "true"
     n = len(case["gsets"])
-    agents = [f"A{i + 1}" for i in range(n)]
+    # agent ids in TASK order: in two of three cases the task list is not sorted by agent id (the batch must follow the
+    # order of the tasks, as the sequential loop does)
+    hv0 = sum(len(g_) for g_ in case["gsets"]) + case["workers"] + case["limit"]
+    agents = [[f"A{i + 1}" for i in range(3)], ["zulu", "Mike", "alpha"], ["A2", "A10", "A1"]][hv0 % 3][:n]
     sizes = case["size"]
     fails: List[Tuple[str, str]] = []
     work = tempfile.mkdtemp(prefix="c10_", dir=case["workdir"])
@@ -203,7 +206,7 @@ def run_case(case) -> List[Tuple[str, str]]:
         if b["raised"]:
             fails.append(("IndependentOfStagingLimit" if "BACKPRESSURE" in b["raised"] else "ResultsEqual", f"{where}: driver raised {b['raised']}"))
             return fails
-        want_results = [f"utter-A{i}-text{i - 1}" for i in case["results"]]
+        want_results = [f"utter-{agents[i - 1]}-text{i - 1}" for i in case["results"]]
         if len(b["results"]) < n and b["results"] == want_results[:len(b["results"])] and len(case["batches"]) > 1:
             # tasks that were not selected for the (first) batch are silently dropped: every later difference
             # is a consequence of this one
@@ -216,7 +219,7 @@ def run_case(case) -> List[Tuple[str, str]]:
             got = []
             for line in b["files"].get(s + ".jsonl", []):
                 rec = json.loads(line)
-                got.append(int(str(rec["agent"])[1:]))
+                got.append(agents.index(str(rec["agent"])) + 1 if str(rec["agent"]) in agents else -1)
             want = [r[0] for r in case["files"][s]]
             if got != want:
                 fails.append(("LogLinesEqualPerFile", f"{where}: {s}.jsonl agent order {got}, spec {want}"))
@@ -225,7 +228,7 @@ def run_case(case) -> List[Tuple[str, str]]:
         groups: Dict[int, List[int]] = {}
         for agent, dry, seen in b["computes"]:
             if dry:
-                groups.setdefault(seen, []).append(int(agent[1:]))
+                groups.setdefault(seen, []).append(agents.index(str(agent)) + 1)
         for seen, members in sorted(groups.items()):
             for x in range(len(members)):
                 for y in range(x + 1, len(members)):
